@@ -7,6 +7,16 @@ Command handlers for linear combinations (C12).
 
   lin1 A c P  → h=… | tr=… | simp=… | zero=… | smul=… | kron=… | rkron=… | quad=… | mat=… | str=…
   lin2 A B    → mm=… | add=… | iadd=… | eq=…
+
+  linhist INIT|op|op|…   multi-step history of one object `x`; INIT and the operands `T`
+              are combinations whose strings are *texts* for the parser, hex coded as in
+              `parse` (`a_b_d*58.5f.32.73.33` = `X_2s3`); ops:
+                iadd T (x += T)   add T (x = x + T)   cancel (x = x + x*(-1))
+                smul c (x = x*c)  mm T (x = x @ T)    rmm T (x = T @ x)
+                simp (x = x.simplify())               h (x = x.h)
+              reply: `status@obs` per step joined by ` || `, the first for INIT;
+              obs = tr=… | size=… | len=… | zero=… | simp=… | sq=… | mat=… | str=…
+              (sq = x @ x.h); a step that raises leaves `x` unchanged.
 -/
 import PauLieVerif.Model.Proto
 import PauLieVerif.Model.Linear
@@ -63,6 +73,66 @@ def lin2 (a b : Lin) : String :=
     "iadd=" ++ showLin (Lin.iadd a b),
     "eq=" ++ showBool (Lin.eq a b)]
 
+def textTerm? (s : String) : Option (GR × List Char) :=
+  match s.splitOn "*" with
+  | [c, p] => do
+    let c ← gr? c
+    let p ← text? p
+    some (c, p)
+  | _ => none
+
+def textLin? (s : String) : Option (Except Err Lin) :=
+  if s == "-" then some (.ok [])
+  else ((s.splitOn ",").mapM textTerm?).map Lin.ofTexts
+
+def obs (x : Lin) : String :=
+  String.intercalate " | " [
+    "tr=" ++ (Lin.trace x).toString,
+    "size=" ++ toString (Lin.getSize x),
+    "len=" ++ toString x.length,
+    "zero=" ++ showBool (Lin.isZero x),
+    "simp=" ++ showLin (Lin.simplify x),
+    "sq=" ++ showExcept showLin (Lin.matmul x (Lin.h x)),
+    "mat=" ++ showExcept showMat (Lin.getMatrix x),
+    "str=" ++ Lin.str x]
+
+/-- one step; `none` = malformed request -/
+def histStep (x : Lin) (op : List String) : Option (Except Err Lin) :=
+  match op with
+  | ["iadd", t] => do
+    let t ← textLin? t
+    some (t.map (fun t => Lin.iadd x t))
+  | ["add", t] => do
+    let t ← textLin? t
+    some (t.map (fun t => Lin.add x t))
+  | ["cancel"] => some (.ok (Lin.add x (Lin.smul x ⟨-1, 0⟩)))
+  | ["smul", c] => do
+    let c ← gr? c
+    some (.ok (Lin.smul x c))
+  | ["mm", t] => do
+    let t ← textLin? t
+    some (t.bind (fun t => Lin.matmul x t))
+  | ["rmm", t] => do
+    let t ← textLin? t
+    some (t.bind (fun t => Lin.matmul t x))
+  | ["simp"] => some (.ok (Lin.simplify x))
+  | ["h"] => some (.ok (Lin.h x))
+  | _ => none
+
+def hist (init : String) (ops : List String) : Option String := do
+  let i ← textLin? init
+  let mut x : Lin := []
+  let mut outs : List String := []
+  match i with
+  | .ok a => x := a; outs := ["ok@" ++ obs x]
+  | .error e => outs := [s!"!{e}@" ++ obs x]
+  for o in ops do
+    let r ← histStep x (o.splitOn " ")
+    match r with
+    | .ok y => x := y; outs := outs ++ ["ok@" ++ obs x]
+    | .error e => outs := outs ++ [s!"!{e}@" ++ obs x]
+  return String.intercalate " || " outs
+
 def handle (line : String) : Option String :=
   match line.splitOn " " with
   | ["lin1", a, c, p] => do
@@ -74,6 +144,10 @@ def handle (line : String) : Option String :=
     let a ← lin? a
     let b ← lin? b
     return lin2 a b
+  | "linhist" :: _ =>
+    match (line.drop 8).toString.splitOn "|" with
+    | init :: ops => hist init ops
+    | [] => none
   | _ => none
 
 end CmdLinear
